@@ -32,7 +32,7 @@ def floors(tier):
     return {"ruler.ops": 2000000 if q else 50000000, "ruler.raising_mutator_warm": 10000, "ruler.warm_mutations": 50000, "ruler.chains_compared": 1000000,
             "op.enable.raise": 1000, "op.disable.raise": 1000, "op.enableOnly.raise": 1000, "op.at.raise": 500, "op.before.raise": 500, "op.after.raise": 500,
             "ruler.duplicate_name_ops": 5000, "facade.histories": 30000 if q else 600000, "facade.rules_observed": 50000, "facade.raising_ops": 500,
-            "facade.reset_rules_exits": 500, "facade.plugin_rules": 500}
+            "facade.reset_rules_exits": 500, "facade.plugin_rules": 500, "facade.model_checks": 100000}
 
 
 # ---- (1) sequential model -------------------------------------------------------------------------------------
@@ -280,11 +280,51 @@ def mk_plugin(i, chain):
     return f
 
 
+def preset_model(preset):
+    """sequential model of the facade: {chain: [[name, enabled], ...]} as the documented configuration of `preset` gives it"""
+    from markdown_it import parser_block, parser_core, parser_inline, presets
+    reg = {"core": [r[0] for r in parser_core._rules], "block": [r[0] for r in parser_block._rules], "inline": [r[0] for r in parser_inline._rules],
+           "inline2": [r[0] for r in parser_inline._rules2]}
+    model = {ch: [[n, True] for n in names] for ch, names in reg.items()}
+    apply_preset(model, preset)
+    return model
+
+
+def apply_preset(model, preset):
+    from markdown_it import presets
+    mod = {"commonmark": presets.commonmark, "js-default": presets.js_default, "default": presets.default, "zero": presets.zero, "gfm-like": presets.gfm_like}[preset]
+    comps = mod.make().get("components", {})
+    for ch, comp in comps.items():
+        if comp.get("rules"):
+            for r in model[ch]:
+                r[1] = r[0] in comp["rules"]
+        if comp.get("rules2"):
+            for r in model["inline2"]:
+                r[1] = r[0] in comp["rules2"]
+
+
+def model_reported(model):
+    return {ch: [r[0] for r in rs if r[1]] for ch, rs in model.items()}, {ch: [r[0] for r in rs] for ch, rs in model.items()}
+
+
 def run_facade_history(ctx, hist, record=True):
     from markdown_it import MarkdownIt
     md = MarkdownIt(hist["preset"], {"linkify": False})  # no linkifier is installed; the linkify rules stay in their chains
     extra = {}
     depth = []
+    model = preset_model(hist["preset"])
+    msnaps = []
+
+    def model_check(step, op):
+        act, allr = model_reported(model)
+        if md.get_active_rules() != act or md.get_all_rules() != allr:
+            got = md.get_active_rules()
+            diff = {ch: (sorted(set(got[ch]) - set(act[ch])), sorted(set(act[ch]) - set(got[ch]))) for ch in act if got[ch] != act[ch]}
+            return "facade-reported-departs-from-model", f"step {step} after {op}: reported active rules differ from the set semantics of the calls (extra, missing per chain): {diff}"
+        return None
+    r0 = model_check(-1, "construction")
+    if r0:
+        return r0
 
     def ruler_of(chain):
         return md.inline.ruler2 if chain == "inline2" else md[chain].ruler
@@ -293,8 +333,14 @@ def run_facade_history(ctx, hist, record=True):
         kind = op["op"]
         try:
             if kind in ("enable", "disable"):
+                names = [op["names"]] if isinstance(op["names"], str) else list(op["names"])
+                for ch in model:
+                    for r in model[ch]:
+                        if r[0] in names:
+                            r[1] = kind == "enable"
                 getattr(md, kind)(op["names"], op["ign"])
             elif kind == "configure":
+                apply_preset(model, op["preset"])
                 md.configure(op["preset"], {"linkify": False})
             elif kind == "parse":
                 md.parse("x *y*\n\n> z\n")
@@ -303,7 +349,12 @@ def run_facade_history(ctx, hist, record=True):
                 cm = md.reset_rules()
                 cm.__enter__()
                 depth.append((cm, md.get_active_rules()))
+                msnaps.append({ch: {r[0] for r in rs if r[1]} for ch, rs in model.items()})
             elif kind == "reset_exit" and depth:
+                snap = msnaps.pop()
+                for ch in model:
+                    for r in model[ch]:
+                        r[1] = r[0] in snap[ch]
                 cm, want = depth.pop()
                 exc = (ValueError, ValueError("boom"), None) if op.get("exc") else (None, None, None)
                 cm.__exit__(*exc)
@@ -314,12 +365,16 @@ def run_facade_history(ctx, hist, record=True):
                 f = mk_plugin(step, op["chain"])
                 r = ruler_of(op["chain"])
                 how = op["how"]
+                mch = model[op["chain"]]
+                pos = next((i for i, x in enumerate(mch) if x[0] == op.get("ref")), -1)
                 if how == "push":
                     r.push(op["name"], f)
+                    mch.append([op["name"], True])
                 elif how == "at":
                     r.at(op["ref"], f)
                 else:
                     getattr(r, how)(op["ref"], op["name"], f)
+                    mch.insert(pos if how == "before" else pos + 1, [op["name"], True])
                 if how == "at":
                     # replaced: the old function must no longer be applied, the new one carries the old name
                     for code, (ch, nm) in list(extra.items()):
@@ -335,6 +390,14 @@ def run_facade_history(ctx, hist, record=True):
                 if record:
                     ctx.count("facade.plugin_rules")
             elif kind == "ruler":
+                mch = model[op["chain"]]
+                for nme in op["names"]:
+                    hit = [x for x in mch if x[0] == nme]
+                    if not hit:
+                        if op["ign"]:
+                            continue
+                        break   # documented prefix effect: names before the unknown one are applied, then KeyError
+                    hit[0][1] = op["method"] == "enable"
                 getattr(ruler_of(op["chain"]), op["method"])(op["names"], op["ign"])
         except (ValueError, KeyError):
             if record:
@@ -343,6 +406,11 @@ def run_facade_history(ctx, hist, record=True):
                     ctx.count("facade.raising_after_warm")
         except Exception as e:
             return "facade-unexpected-exception", f"step {step} {op}: {type(e).__name__}: {e}"
+        rm = model_check(step, op)
+        if rm:
+            return rm
+        if record:
+            ctx.count("facade.model_checks")
     while depth:
         cm, want = depth.pop()
         cm.__exit__(None, None, None)
